@@ -3097,6 +3097,11 @@ class WBEMConnection:  # pylint: disable=too-many-instance-attributes
                 # paths as INSTANCENAME elements which do not contain namespace
                 # or host. We want to return instance paths with namespace, so
                 # we set it to the effective target namespace.
+                if instance.path is None:
+                    raise CIMXMLParseError(
+                        "Expecting instances with path (VALUE.NAMEDINSTANCE) "
+                        "in result list, got an instance without path",
+                        conn_id=self.conn_id)
                 instance.path.namespace = namespace
 
             return instances
